@@ -88,3 +88,27 @@ def obligation(prop, tier='quick', timeout=120, path_timeout=30, drives=(), boun
         REGISTRY.setdefault(f.__module__, {})[name] = meta
         return f
     return deco
+
+
+def define(g, prop, name, params, body, pres, **meta):
+    """Create (by exec in module namespace `g`) and register the obligation
+        def <name>(<p>: int, ...) -> bool:  <body>
+    params: list of names (all int) or (name, type-name) pairs; body: source lines (list or str) of the
+    function body; pres: list of precondition expressions."""
+    plist = []
+    for p in params:
+        if isinstance(p, tuple):
+            plist.append("%s: %s" % p)
+        else:
+            plist.append("%s: int" % p)
+    if isinstance(body, str):
+        body = body.splitlines()
+    src = "def %s(%s) -> bool:\n" % (name, ", ".join(plist)) + "".join("    %s\n" % l for l in body)
+    ns = {}
+    exec(compile(src, g.get('__file__', '<vrt>'), 'exec'), g, ns)
+    f = ns[name]
+    f.__module__ = g['__name__']
+    f.__doc__ = "\n".join(["pre: %s" % p for p in pres] + ["post: _"]) + "\n"
+    f.__vrt_source__ = src
+    g[name] = obligation(prop, **meta)(f)
+    return g[name]
